@@ -1,7 +1,8 @@
 #!/bin/sh
 # usage: tools/trypatch.sh <seeded dir> <Cxx> [<Cxx>...]: applies the patch to /repo, runs the checks, reverts
 d="$1"; shift
-cd /repo && git apply "$d/patch.diff" || { echo "patch does not apply"; exit 2; }
+cd /repo && [ -z "$(git status --porcelain)" ] || { echo "REFUSING: /repo has uncommitted changes"; exit 3; }
+git apply "$d/patch.diff" || { echo "patch does not apply"; exit 2; }
 for id in "$@"; do
   (cd /verif && ./check "$id" 2>&1 | grep -E "VIOLATION|failed obligation|obligations," | cut -c1-260)
 done
